@@ -232,21 +232,21 @@ def worker(ctx):
     if ctx.quick:
         ctx.set_budget(70)
         grid(ctx)
-        ctx.set_budget(110)
+        ctx.set_budget(40)
         whole_messages(ctx, ctx.per_shard(48), 4)
-        ctx.set_budget(170)
+        ctx.set_budget(60)
         access_width(ctx, ctx.per_shard(16))
-        ctx.set_budget(260)
+        ctx.set_budget(90)
         ccommon.run_opt_cases(ctx, ctx.per_shard(16), 4, {"same": True},
                               variants=[("little", []), ("big", []), ("both", ["-DBP_BIG_ENDIAN"])], configs=["gcc-O0-sep", "gcc-O2-single"])
     else:
         ctx.set_budget(900)
         grid(ctx)
-        ctx.set_budget(1500)
+        ctx.set_budget(600)
         whole_messages(ctx, ctx.per_shard(640), 12)
-        ctx.set_budget(2400)
+        ctx.set_budget(900)
         access_width(ctx, ctx.per_shard(320))
-        ctx.set_budget(3400)
+        ctx.set_budget(1000)
         ccommon.run_opt_cases(ctx, ctx.per_shard(240), 12, {"same": True},
                               variants=[("little", []), ("big", []), ("both", ["-DBP_BIG_ENDIAN"])],
                               configs=["gcc-O0-sep", "gcc-O2-single", "gcc-asan-ubsan", "clang-O2-sep"])
